@@ -355,8 +355,8 @@ struct StringConv : CConv {  // the convertable of examples/axis.c: mpt_convert_
 
 // ------------------------------------------------------------------------------------------------
 // values
-enum Mode { MTyped, MValue, MSetString, MConvString, MNoValue };  // MValue: typed value through mpt_object_set_value (library converts)
-enum Sem { SNone, SInt, SReal, SChar, SString, SColor, SPoint, SLetters, SLog };
+enum Mode { MTyped, MValue, MSetString, MConvString, MNoValue, MIter };  // MValue: typed value through mpt_object_set_value (library converts)
+enum Sem { SNone, SInt, SReal, SChar, SString, SColor, SPoint, SLetters, SLog, SKey };
 struct Value {
   Mode mode = MTyped;
   int type = 0;                 // MTyped: served type id
@@ -394,8 +394,10 @@ std::string Value::describe() const {
     case MSetString: return "text " + printable(text);
     case MConvString: return "text(convert_string) " + printable(text);
     case MNoValue: return "no value (NULL text)";
+    case MIter: return "next element(s) of the shared iterator";
     default: break;
   }
+  if (type == 'k') return "typed 'k' (keyword) " + printable(text);
   if (mode == MValue) { Value t = *this; t.mode = MTyped; return "mpt_object_set_value: " + t.describe(); }
   if (type == 's') return null_string ? std::string("typed 's' NULL") : "typed 's' " + printable(text);
   if (type == kVecChar) return std::string("typed vector 'c' ") + (vec_with_nul ? "(+NUL) " : "") + printable(text);
@@ -641,6 +643,23 @@ static Expect expectation_(int kind, FK fk, long ltype, const Value &v, const st
     }
     case FChar:
       if (typed(v) && v.type == 'c') { e.known = true; e.val = num_as('c', v); e.why = "the character given"; }
+      else if (v.mode == MSetString || v.mode == MConvString) {
+        // text through mpt_convert_string: 'c' takes the first visible character if it is 7-bit printable
+        // (mpt_convert_number: isgraph), BadType otherwise; the axis setPosition() then converts as keyword 'k' and
+        // stores the first byte of the keyword (UTF-8 lead byte, Latin-1, control character)
+        size_t i = 0;
+        while (i < v.text.size() && isspace((unsigned char)v.text[i])) ++i;
+        if (i < v.text.size()) {
+          unsigned char fb = v.text[i];
+          if ((fb > 0x20 && fb < 0x7f) || kind == KAxis) {
+            e.known = true; e.val = ren_int('c', fb);
+            e.why = (fb > 0x20 && fb < 0x7f) ? "the first visible character of the text" : "the first byte of the keyword (axis position fallback)";
+          }
+        }
+      }
+      else if (v.mode == MTyped && v.type == 'k' && kind == KAxis) {  // setPosition(): *val = *s
+        e.known = true; e.val = ren_int('c', v.text.empty() ? 0 : (unsigned char)v.text[0]); e.why = "the first byte of the keyword served";
+      }
       else if (is_text(v) && v.sem == SChar && v.clean) { e.known = true; e.val = num_as('c', v); e.why = "the single character of the text"; }
       else if (typed(v) && !is_text(v) && v.sem != SInt && v.sem != SChar) { e.known = true; e.val = "!value of a foreign type"; e.why = "value type has no meaning for the property"; }
       return e;
@@ -765,8 +784,13 @@ static Value typed_float(Ctx &c) {
 }
 static Value typed_char(Ctx &c) {
   Value v; v.mode = MTyped; v.type = 'c'; v.sem = SChar;
-  unsigned char ch = c.flip() ? (unsigned char)"0123456789nbxyzBEZ"[c.pick(18)] : c.u8();
+  uint8_t fb = c.u8();  // bit 0: table / any byte (was a flip); bits 1+2 both set: a source that offers the keyword type 'k' only
+  unsigned char ch = (fb & 1) ? (unsigned char)"0123456789nbxyzBEZ"[c.pick(18)] : c.u8();
   put(v.bytes, ch); v.num = ch;
+  if ((fb & 6) == 6) {
+    v.type = 'k'; v.sem = SKey; v.bytes.clear();
+    v.text = ch ? std::string(1, (char)ch) + "p" : std::string();
+  }
   return v;
 }
 static Value typed_color(Ctx &c) {
@@ -834,10 +858,20 @@ static Value text_garbage(Ctx &c) {
 }
 static Value text_char(Ctx &c) {
   Value v; v.mode = text_mode(c); v.sem = SChar;
-  char ch = "0123456789nbxyzBEZ+-#"[c.pick(21)];
+  uint8_t pb = c.u8();  // % 21: table (was a pick); / 21 = 0..12: what stands in front of it
+  char ch = "0123456789nbxyzBEZ+-#"[pb % 21];
   v.text = std::string(1, ch);
+  switch (pb / 21) {
+    case 7: v.text = " " + v.text; break;
+    case 8: v.text = " \t " + v.text; break;
+    case 9: v.text = "\xe2\x86\x91" + v.text; break;          // UTF-8 arrow
+    case 10: v.text = "\xb0" + v.text; break;                  // Latin-1 degree
+    case 11: v.text = ((pb & 1) ? "\x01" : "\x1b") + v.text; break;  // control character
+    case 12: v.text = "  \xe2\x86\x92" + v.text; break;       // blanks, then UTF-8
+    default: break;
+  }
   v.num = (unsigned char)ch;
-  v.clean = true;
+  v.clean = v.text.size() == 1;
   if (c.chance(40)) { v.text += gen_string(c, 5); v.clean = v.text.size() == 1; }
   return v;
 }
@@ -918,7 +952,7 @@ static Value no_value() { Value v; v.mode = MNoValue; return v; }
 static Value gen_value_(Ctx &c, FK fk);
 static Value gen_value(Ctx &c, FK fk) {
   Value v = gen_value_(c, fk);
-  if (v.mode == MTyped && v.type && c.chance(56)) v.mode = MValue;
+  if (v.mode == MTyped && v.type && c.chance(56) && v.type != 'k') v.mode = MValue;  // 'k' is no value type of mpt_value_convert
   return v;
 }
 static Value gen_value_(Ctx &c, FK fk) {
@@ -983,7 +1017,7 @@ static int apply(Obj *o, const char *name, const Value &v, mpt::object::attribut
       return mpt::mpt_object_set_value(o->object(), name, val);
     }
   };
-  if (v.type == 's') {
+  if (v.type == 's' || v.type == 'k') {
     const char *p = 0;
     if (!v.null_string) { own.reset(new char[v.text.size() + 1]); memcpy(own.get(), v.text.c_str(), v.text.size() + 1); p = own.get(); }
     put(tc.data, p);
@@ -1295,7 +1329,8 @@ static void run_history(Ctx &c, int flavour, int kind, int variant, bool by_name
     if (ret < 0) {
       std::string d = diff(snap[t], after[t]);
       VP_CHECK(c, d.empty(), "refused-but-changed", "%s is refused (%d) but the object changed: %s", what.c_str(), ret, d.c_str());
-      if ((op == 0 || op == 1) && target_prop >= 0 && find_prop(fresh, name) >= 0)
+      // (a conversion may answer BadArgument too - mpt_value_convert for an unknown type: only the harness convertable and a reset are sure not to)
+      if ((op == 1 || (op == 0 && val.mode == MTyped)) && target_prop >= 0 && find_prop(fresh, name) >= 0)
         VP_CHECK(c, ret != mpt::BadArgument, "listed-name-unknown", "%s: the setter does not know the listed property name (BadArgument)", what.c_str());
       if (is_reset && !unknown_name)
         c.fail("reset-refused", "%s is refused (%d)", what.c_str(), ret);
